@@ -6,6 +6,8 @@ import MJ.Proofs.BalPatch
 import MJ.Proofs.Ops
 import MJ.Proofs.OpsBal
 import MJ.Model.OpsArms
+import MJ.Proofs.Extends
+import MJ.Proofs.BalExpr
 import MJ.Gen.Tables
 /-!
 # C05 — scoped constructs restore scope, capture and escape state on every path
@@ -920,5 +922,82 @@ example : ∃ E : Engine, (∀ t, MJ.BalGen.ok false (E.ast t) = true) ∧
   ⟨⟨Unit, fun _ => everything, fun _ => (MJ.BalPatch.genTemplate everything).toArray⟩,
    fun _ => (by decide : MJ.BalGen.ok false everything = true), fun _ => rfl, (),
    (by decide : (MJ.BalPatch.genTemplate everything).toArray.size = 71)⟩
+
+end MJ.C05
+
+namespace MJ.C05
+open MJ.Extends
+
+/-! ## `extends`: the discard capture of `LoadBlocks` and the end-of-stream logic -/
+
+/-- `extends_pairs_with_end_of_stream` (model `MJ/Model/Extends.lean` of the `LoadBlocks` arm and of the
+instruction fetch at the end of a stream): a `LoadBlocks` that runs where the stream's own captures are
+all closed (`{% extends %}` outside set / filter blocks — relative capture depth 0), followed by capture
+events that are balanced (what an accepted certificate gives for the rest of the stream: it ends at
+the depth it was entered with), reaches the end of the stream with its own `Discard` entry on top: the
+one `end_capture` of the end-of-stream logic pops exactly that entry, the evaluation continues with the
+parent's instructions, `parent_instructions` is empty again and the capture stack is the one the
+template found — whatever was open around it (`c`) untouched. -/
+theorem extends_pairs_with_end_of_stream (c : List Entry) (q : List Entry) (p : Nat) (es : List Ev)
+    (h : dyck 0 es = true) :
+    ∃ s s', run { caps := c, parent := none, popped := q } (.loadBlocks p :: es) = some s ∧
+      endOfStream s = some (p, .discard, s') ∧ s'.caps = c ∧ s'.parent = none := by
+  obtain ⟨s, hr, hc, hp⟩ := dyck_run es 0 { caps := .discard :: c, parent := some p, popped := q } h (by simp)
+  refine ⟨s, { s with caps := c, parent := none }, by simpa [run, ev] using hr, ?_, rfl, rfl⟩
+  simp only [List.drop_zero] at hc
+  simp [endOfStream, hp, hc]
+
+/-- a second `extends` in the same evaluation fails instead of opening a second discard capture -/
+theorem second_extends_fails (s : St) (p q : Nat) (h : s.parent = some p) : ev s (.loadBlocks q) = none := by
+  simp [ev, h]
+
+example : dyck 0 [.beginCapture 0, .beginCapture 1, .endCapture, .endCapture, .beginCapture 2, .endCapture] = true := by
+  decide
+
+/-- `extends_inside_capture_mispairs`: what the hypothesis "relative capture depth 0" excludes, and the
+code does not: `{% set x %}{% extends … %}{% endset %}` compiles.  The `EndCapture` of the set block
+pops the discard entry of `LoadBlocks` (`x` is undefined) and the end-of-stream logic pops the set
+block's buffer.  The capture DEPTH is restored on this path as on every other (that is what the
+certificate and the run-time counters check); the PAIRING is not.  Everything behind `extends` is
+discarded anyway, so the only thing a template can observe is the value of `x` in a block. -/
+theorem extends_inside_capture_mispairs :
+    ∃ s s', run { caps := [], parent := none, popped := [] } [.beginCapture 0, .loadBlocks 7, .endCapture] = some s ∧
+      s.popped = [.discard] ∧ endOfStream s = some (7, .block 0, s') ∧ s'.caps = [] :=
+  ⟨{ caps := [.block 0], parent := some 7, popped := [.discard] }, { caps := [], parent := none, popped := [.discard] },
+   by decide, rfl, by decide, rfl⟩
+
+end MJ.C05
+
+namespace MJ.C05
+open MJ.BalExpr
+
+/-! ## Expressions with internal jumps are `flat` blocks -/
+
+/-- `expression_code_is_flat` (model `MJ/Model/BalExpr.lean` of the four places where `compile_expr`
+emits jumps: `and` / `or` with `JumpIfFalseOrPop` / `JumpIfTrueOrPop` to the end of the operator, the
+inline `a if c else b`, chained comparisons with their `JumpIfFalseOrPop` to the `Swap; DiscardTop`
+clean-up behind a `Jump`, calls that may be a captured `loop(x)`, under any nesting): the code of EVERY
+expression tree, jump targets as the back-patching leaves them, only jumps inside itself and consists
+of state-preserving instructions — it is a `flat` block of the statement model, so `compile_has_cert`
+and `compiled_code_balanced` cover statement trees whose expressions are generated this way and not
+only assumed to be `flat`. -/
+theorem expression_code_is_flat (e : Expr) (inLoop : Bool) :
+    MJ.BalGen.ok inLoop (.flat (gen 0 e)) = true ∧ (gen 0 e).length = size e :=
+  ⟨gen_flat e inLoop, length_gen e 0⟩
+
+/-- `c and x is defined or 3 < k < 9` (the condition of the harness kind `ifa`), then `'y' if c else 'n'` -/
+def ifaCondition : Expr :=
+  .scBool false (.scBool true (.leaf 1) (.leaf 2)) (.compare (.leaf 1) (.more (.leaf 1) (.last (.leaf 1))))
+
+example : gen 0 ifaCondition =
+    [.other, .jumpIfFalseOrPop 4, .other, .other, .jumpIfTrueOrPop 14,
+     .other, .other, .other, .jumpIfFalseOrPop 12, .other, .other, .jump 14, .other, .other] := by decide
+
+/-- a loop whose body tests that condition, breaks out of a `with` on it and emits an inline `if` with
+a captured `loop(x)` in one arm -/
+example : Balanced (MJ.BalGen.codeOf (MJ.BalGen.compileTemplate
+    (.forS true true 1 1 (.withS 1 (.seq (.flat (gen 0 ifaCondition))
+      (.seq (.ifS 1 .breakS) (.flat (gen 0 (.ifExpr (.leaf 1) .call (.leaf 1)))))))))) :=
+  compiled_code_balanced _ (by decide)
 
 end MJ.C05
